@@ -43,11 +43,6 @@ var hgBackendMethods = map[string]bool{
 	"Rename": true, "RenameAt": true, "UnlinkAt": true, "Readdir": true, "Readlink": true, "Renamed": true, "Attach": true,
 }
 
-// receivers that denote a backend File / the Attacher
-func hgIsFileRecv(s string) bool {
-	return strings.HasSuffix(s, ".file") || s == "sf" || s == "from" || s == "nsf" || s == "cs.server.attacher"
-}
-
 // calls without an effect the summaries track (conversions, predicates, constructors of values)
 var hgPure = map[string]bool{
 	"newErr": true, "errors.Is": true, "errors.Join": true, "errors.As": true, "len": true, "int": true, "int64": true, "uint64": true, "uint32": true,
@@ -68,6 +63,112 @@ type hgen struct {
 	r      *Repo
 	events []string
 	err    error
+	// the function being summarised; alpha: print locals positionally (_v0, _v1, ...) so that a
+	// rename of a local variable, parameter or receiver does not change the table
+	fd     *ast.FuncDecl
+	alpha  bool
+	cs     map[string]bool // identifiers of type *connState (receiver / parameters)
+	files  map[string]bool // identifiers of type File (parameters, var declarations, the Attach() result)
+	locals map[string]string
+}
+
+// hgLocalTypes finds the *connState- and File-typed identifiers of fd from its syntax.
+func hgLocalTypes(fd *ast.FuncDecl) (cs, files map[string]bool) {
+	cs, files = map[string]bool{}, map[string]bool{}
+	typ := func(t ast.Expr) string {
+		if st, ok := t.(*ast.StarExpr); ok {
+			if id, ok := st.X.(*ast.Ident); ok {
+				return "*" + id.Name
+			}
+		}
+		if id, ok := t.(*ast.Ident); ok {
+			return id.Name
+		}
+		return ""
+	}
+	fields := func(fl *ast.FieldList) {
+		if fl == nil {
+			return
+		}
+		for _, f := range fl.List {
+			for _, n := range f.Names {
+				switch typ(f.Type) {
+				case "*connState":
+					cs[n.Name] = true
+				case "File":
+					files[n.Name] = true
+				}
+			}
+		}
+	}
+	fields(fd.Recv)
+	fields(fd.Type.Params)
+	fields(fd.Type.Results)
+	ast.Inspect(fd.Body, func(n ast.Node) bool {
+		switch x := n.(type) {
+		case *ast.ValueSpec:
+			if x.Type != nil && typ(x.Type) == "File" {
+				for _, id := range x.Names {
+					files[id.Name] = true
+				}
+			}
+		case *ast.AssignStmt:
+			// sf, err := cs.server.attacher.Attach()
+			if x.Tok == token.DEFINE && len(x.Rhs) == 1 && len(x.Lhs) >= 1 {
+				if c, ok := x.Rhs[0].(*ast.CallExpr); ok {
+					if sel, ok := c.Fun.(*ast.SelectorExpr); ok && sel.Sel.Name == "Attach" {
+						if id, ok := x.Lhs[0].(*ast.Ident); ok {
+							files[id.Name] = true
+						}
+					}
+				}
+			}
+		}
+		return true
+	})
+	return
+}
+
+func newHgen(r *Repo, fd *ast.FuncDecl, alpha bool) *hgen {
+	g := &hgen{r: r, fd: fd, alpha: alpha}
+	g.cs, g.files = hgLocalTypes(fd)
+	g.locals = LocalNames(fd)
+	return g
+}
+
+func (g *hgen) isCS(e ast.Expr) bool {
+	id, ok := e.(*ast.Ident)
+	return ok && g.cs[id.Name]
+}
+
+// isAttacher: <cs>.server.attacher
+func (g *hgen) isAttacher(e ast.Expr) bool {
+	s1, ok := e.(*ast.SelectorExpr)
+	if !ok || s1.Sel.Name != "attacher" {
+		return false
+	}
+	s2, ok := s1.X.(*ast.SelectorExpr)
+	return ok && s2.Sel.Name == "server" && g.isCS(s2.X)
+}
+
+// isFileRecv: receivers that denote a backend File / the Attacher
+func (g *hgen) isFileRecv(e ast.Expr) bool {
+	switch x := e.(type) {
+	case *ast.SelectorExpr:
+		return x.Sel.Name == "file" || g.isAttacher(e)
+	case *ast.Ident:
+		return g.files[x.Name]
+	}
+	return false
+}
+
+func (g *hgen) isLocal(e ast.Expr) bool {
+	id, ok := e.(*ast.Ident)
+	if !ok {
+		return false
+	}
+	_, l := g.locals[id.Name]
+	return l
 }
 
 func (g *hgen) emit(format string, a ...interface{}) { g.events = append(g.events, fmt.Sprintf(format, a...)) }
@@ -79,9 +180,24 @@ func (g *hgen) refuse(p token.Pos, format string, a ...interface{}) {
 }
 
 func (g *hgen) src(n ast.Node) string {
+	if g.alpha {
+		return strings.Join(strings.Fields(AlphaPrint(g.r.Fset, g.fd, n)), " ")
+	}
 	var b bytes.Buffer
 	printer.Fprint(&b, g.r.Fset, n)
 	return strings.Join(strings.Fields(b.String()), " ")
+}
+
+// recvText: how a backend receiver is written in an event: the Attacher as "attacher"; in the
+// alpha table a File-typed local as "<_vN>" (so that the summaries can tell it from a fidRef's file)
+func (g *hgen) recvText(e ast.Expr) string {
+	if g.isAttacher(e) {
+		return "attacher"
+	}
+	if _, ok := e.(*ast.Ident); ok && g.alpha && g.isFileRecv(e) {
+		return "<" + g.src(e) + ">"
+	}
+	return g.src(e)
 }
 
 // errnoOf recognises linux.EXXX and newErr(linux.EXXX).
@@ -111,9 +227,13 @@ func (g *hgen) calls(e ast.Node) {
 	case *ast.FuncLit:
 		g.refuse(x.Pos(), "function literal outside safely*/defer")
 	case *ast.TypeAssertExpr:
-		if g.src(x.X) == "cs.readBufPool.Get()" {
-			g.emit("pool-get")
-			return
+		if c, ok := x.X.(*ast.CallExpr); ok && len(c.Args) == 0 {
+			if s1, ok := c.Fun.(*ast.SelectorExpr); ok && s1.Sel.Name == "Get" {
+				if s2, ok := s1.X.(*ast.SelectorExpr); ok && s2.Sel.Name == "readBufPool" && g.isCS(s2.X) {
+					g.emit("pool-get")
+					return
+				}
+			}
 		}
 		g.calls(x.X)
 	case *ast.BinaryExpr:
@@ -185,14 +305,15 @@ func (g *hgen) call(c *ast.CallExpr) {
 	if sel, ok := c.Fun.(*ast.SelectorExpr); ok {
 		g.calls(sel.X)
 		recv, m := g.src(sel.X), sel.Sel.Name
+		isCS := g.isCS(sel.X)
 		switch {
-		case hgBackendMethods[m] && hgIsFileRecv(recv):
-			g.emit("call:%s.%s(%s)", strings.TrimPrefix(recv, "cs.server."), m, g.args(c))
-		case recv == "cs" && m == "LookupFID":
+		case hgBackendMethods[m] && g.isFileRecv(sel.X):
+			g.emit("call:%s.%s(%s)", g.recvText(sel.X), m, g.args(c))
+		case isCS && m == "LookupFID":
 			g.emit("lookup:%s", g.args(c))
-		case recv == "cs" && m == "InsertFID" && len(c.Args) == 2:
+		case isCS && m == "InsertFID" && len(c.Args) == 2:
 			g.emit("insert:%s:%s", g.src(c.Args[0]), g.src(c.Args[1]))
-		case recv == "cs" && m == "DeleteFID":
+		case isCS && m == "DeleteFID":
 			g.emit("delete:%s", g.args(c))
 		case m == "DecRef":
 			g.emit("decref:%s", recv)
@@ -204,10 +325,10 @@ func (g *hgen) call(c *ast.CallExpr) {
 			g.emit("tree:%s(%s)", fun, g.args(c))
 		case m == "Lock" || m == "Unlock" || m == "RLock" || m == "RUnlock":
 			g.emit("lock:%s", fun)
-		case recv == "atomic" && (m == "AddInt64" || m == "LoadInt64" || m == "CompareAndSwapInt64" || m == "LoadUint32"):
+		case recv == "atomic" && !g.isLocal(sel.X) && (m == "AddInt64" || m == "LoadInt64" || m == "CompareAndSwapInt64" || m == "LoadUint32"):
 			g.emit("atomic:%s(%s)", m, g.args(c))
 		case hgPure[fun] || hgPureMethods[m]:
-		case recv == "cs" && m == "handle", m == "handle" && recv == "handler":
+		case m == "handle" && len(c.Args) <= 1:
 			g.emit("delegate:%s(%s)", fun, g.args(c))
 		default:
 			g.refuse(c.Pos(), "call %s", fun)
@@ -243,10 +364,19 @@ func (g *hgen) ret(s *ast.ReturnStmt) {
 			continue
 		}
 		t := g.src(r)
+		isNewErrOfLocal := false
+		if c, ok := r.(*ast.CallExpr); ok && len(c.Args) == 1 {
+			if id, ok := c.Fun.(*ast.Ident); ok && id.Name == "newErr" && g.isLocal(c.Args[0]) {
+				isNewErrOfLocal = true
+			}
+		}
 		switch {
-		case t == "nil" || t == "err" || t == "true" || t == "false":
+		case t == "nil" || t == "true" || t == "false":
 			parts = append(parts, t)
-		case t == "newErr(err)" || t == "newErr(fidErr)":
+		case g.isLocal(r):
+			// a local error / value variable; in the raw table under its name
+			parts = append(parts, t)
+		case isNewErrOfLocal:
 			parts = append(parts, "err")
 		case strings.HasPrefix(t, "&r") && strings.Contains(t, "{"):
 			parts = append(parts, t[:strings.Index(t, "{")])
@@ -317,6 +447,15 @@ func (g *hgen) stmt(s ast.Stmt) {
 	case *ast.AssignStmt:
 		for _, r := range x.Rhs {
 			g.calls(r)
+		}
+		// alpha table: "lookup:<fid>=><variable>" so that the deferred DecRef can be matched to it
+		if g.alpha && len(x.Rhs) == 1 && len(x.Lhs) >= 1 && len(g.events) > 0 {
+			if c, ok := x.Rhs[0].(*ast.CallExpr); ok {
+				if sel, ok := c.Fun.(*ast.SelectorExpr); ok && sel.Sel.Name == "LookupFID" && g.isCS(sel.X) &&
+					strings.HasPrefix(g.events[len(g.events)-1], "lookup:") {
+					g.events[len(g.events)-1] += "=>" + g.src(x.Lhs[0])
+				}
+			}
 		}
 		if len(x.Lhs) == 1 && len(x.Rhs) == 1 {
 			if e, ok := errnoOf(x.Rhs[0]); ok {
@@ -454,47 +593,57 @@ func runHandlerGen(r *Repo) (string, error) {
 	var b strings.Builder
 	b.WriteString("From Coq Require Import String List.\nImport ListNotations.\nOpen Scope string_scope.\n\n")
 	b.WriteString("(* ordered event traces; vocabulary in tools/go2coq/handlergen.go *)\n")
-	b.WriteString("Definition handler_traces : list (string * list string) := [\n")
-	for i, f := range fns {
-		g := &hgen{r: r}
-		if f.name == "fidRef.safelyRead" || f.name == "fidRef.safelyWrite" || f.name == "fidRef.safelyGlobal" {
-			// the wrappers themselves: lock / deferred unlock bracketing around fn()
-			for _, s := range f.decl.Body.List {
-				switch x := s.(type) {
-				case *ast.ReturnStmt:
-					g.emit("return:%s", g.src(x.Results[0]))
-				default:
-					g.stmt(s)
+	emitTraces := func(defName string, alpha bool) error {
+		fmt.Fprintf(&b, "Definition %s : list (string * list string) := [\n", defName)
+		for i, f := range fns {
+			g := newHgen(r, f.decl, alpha)
+			if f.name == "fidRef.safelyRead" || f.name == "fidRef.safelyWrite" || f.name == "fidRef.safelyGlobal" {
+				// the wrappers themselves: lock / deferred unlock bracketing around fn()
+				for _, s := range f.decl.Body.List {
+					switch x := s.(type) {
+					case *ast.ReturnStmt:
+						g.emit("return:%s", g.src(x.Results[0]))
+					default:
+						g.stmt(s)
+					}
 				}
+			} else {
+				g.block(f.decl.Body.List)
 			}
-		} else {
-			g.block(f.decl.Body.List)
-		}
-		if g.err != nil {
-			return "", g.err
-		}
-		fmt.Fprintf(&b, "  (%s, [", CoqString(f.name))
-		for j, e := range g.events {
-			for _, ch := range e {
-				if ch < 32 || ch > 126 {
-					return "", r.Refuse(f.decl.Pos(), "non-ASCII text in %s", f.name)
+			if g.err != nil {
+				return g.err
+			}
+			fmt.Fprintf(&b, "  (%s, [", CoqString(f.name))
+			for j, e := range g.events {
+				for _, ch := range e {
+					if ch < 32 || ch > 126 {
+						return r.Refuse(f.decl.Pos(), "non-ASCII text in %s", f.name)
+					}
 				}
+				if j > 0 {
+					b.WriteString("; ")
+				}
+				if j%4 == 0 {
+					b.WriteString("\n     ")
+				}
+				b.WriteString(CoqString(e))
 			}
-			if j > 0 {
-				b.WriteString("; ")
+			b.WriteString("])")
+			if i+1 < len(fns) {
+				b.WriteString(";")
 			}
-			if j%4 == 0 {
-				b.WriteString("\n     ")
-			}
-			b.WriteString(CoqString(e))
+			b.WriteString("\n")
 		}
-		b.WriteString("])")
-		if i+1 < len(fns) {
-			b.WriteString(";")
-		}
-		b.WriteString("\n")
+		b.WriteString("].\n\n")
+		return nil
 	}
-	b.WriteString("].\n\n")
+	if err := emitTraces("handler_traces", false); err != nil {
+		return "", err
+	}
+	b.WriteString("(* the same traces with the local identifiers of each function printed positionally (_v0 = receiver or first\n   parameter, ... in declaration order; tools/go2coq/alpha.go): unchanged by a rename of a local *)\n")
+	if err := emitTraces("handler_traces_alpha", true); err != nil {
+		return "", err
+	}
 
 	// string-typed fields of the T-messages that have handlers (embedded structs flattened)
 	mf, ok := files["messages.go"]
@@ -559,20 +708,26 @@ func runHandlerGen(r *Repo) (string, error) {
 	}
 	sort.Strings(hs)
 	// every Lock / RLock site of the request path and how it is released
-	locks, err := lockSites(r, files)
-	if err != nil {
-		return "", err
-	}
 	b.WriteString("(* (function, lock operation, release): release = deferred | explicit | explicit-with-calls:<callees between lock and unlock> *)\n")
-	b.WriteString("Definition lock_sites : list (string * string * string) := [\n")
-	for i, l := range locks {
-		fmt.Fprintf(&b, "  (%s, %s, %s)", CoqString(l[0]), CoqString(l[1]), CoqString(l[2]))
-		if i+1 < len(locks) {
-			b.WriteString(";")
+	for _, alpha := range []bool{false, true} {
+		locks, err := lockSites(r, files, alpha)
+		if err != nil {
+			return "", err
 		}
-		b.WriteString("\n")
+		if alpha {
+			b.WriteString("Definition lock_sites_alpha : list (string * string * string) := [\n")
+		} else {
+			b.WriteString("Definition lock_sites : list (string * string * string) := [\n")
+		}
+		for i, l := range locks {
+			fmt.Fprintf(&b, "  (%s, %s, %s)", CoqString(l[0]), CoqString(l[1]), CoqString(l[2]))
+			if i+1 < len(locks) {
+				b.WriteString(";")
+			}
+			b.WriteString("\n")
+		}
+		b.WriteString("].\n\n")
 	}
-	b.WriteString("].\n\n")
 
 	b.WriteString("Definition tmsg_string_fields : list (string * list string) := [\n")
 	for i, h := range hs {
@@ -616,10 +771,14 @@ func isLockCall(e ast.Expr) (recv, op string, ok bool) {
 	return "", "", false
 }
 
-func lockSites(r *Repo, files map[string]*ast.File) ([][3]string, error) {
+func lockSites(r *Repo, files map[string]*ast.File, alpha bool) ([][3]string, error) {
 	var out [][3]string
 	seen := map[token.Pos]bool{}
+	var curFd *ast.FuncDecl
 	src := func(n ast.Node) string {
+		if alpha && curFd != nil {
+			return strings.Join(strings.Fields(AlphaPrint(r.Fset, curFd, n)), " ")
+		}
 		var b bytes.Buffer
 		printer.Fprint(&b, r.Fset, n)
 		return strings.Join(strings.Fields(b.String()), " ")
@@ -747,6 +906,7 @@ func lockSites(r *Repo, files map[string]*ast.File) ([][3]string, error) {
 			if fd.Recv != nil && len(fd.Recv.List) == 1 {
 				name = recvTypeName(fd.Recv.List[0].Type) + "." + name
 			}
+			curFd = fd
 			if err := scan(name, fd.Body.List); err != nil {
 				return nil, err
 			}
